@@ -11,7 +11,18 @@ about them are restated for the translated source.
 namespace GV.C17Src
 open GV GV.Coll GV.Coll.Track
 
-theorem getitem_eq (a b : Option Int) (c : Coll) :
+variable (a b : Option Int)
+
+/-- **the translated `Track.__init__`** (refuse time-less shapes, stable sort by start, hand the list to
+    `CollectionBase.__init__`) is the model's `mkTrack` -/
+theorem init_eq (l : List Shape) : Src.Track.init a b l = mkTrack l := by
+  simp only [Src.Track.init, mkTrack]
+  first
+    | rfl
+    | (have h : (l.all fun x => x.dt.isSome) = l.all Shape.timed := rfl
+       rw [h]; cases l.all Shape.timed <;> rfl)
+
+theorem getitem_eq (c : Coll) :
     Src.Track.getitem a b c () = getitem c a b := by
   simp only [Src.Track.getitem, getitem]
   congr 1
@@ -20,7 +31,7 @@ theorem getitem_eq (a b : Option Int) (c : Coll) :
   unfold sliceKeep
   cases a <;> cases b <;> simp <;> grind
 
-theorem hasDupLoop_eq (a b : Option Int) (c : Coll) :
+theorem hasDupLoop_eq (c : Coll) :
     ∀ (l : List Shape) (seen : List (Option TI)), Src.Track.hasDup.loop1 a b c l seen = hasDupLoop l seen := by
   intro l
   induction l with
@@ -30,13 +41,13 @@ theorem hasDupLoop_eq (a b : Option Int) (c : Coll) :
     unfold Src.Track.hasDup.loop1 hasDupLoop
     simp only [ih]
 
-theorem hasDup_eq (a b : Option Int) (c : Coll) : Src.Track.hasDup a b c = hasDup c := by
+theorem hasDup_eq (c : Coll) : Src.Track.hasDup a b c = hasDup c := by
   simp only [Src.Track.hasDup, hasDup, hasDupLoop_eq]
 
 /-! ### the C17 laws, restated for the translated source -/
 
 /-- the source's duplicate scan answers "some time bound occurs twice" -/
-theorem src_hasDup_iff (a b : Option Int) (c : Coll) :
+theorem src_hasDup_iff (c : Coll) :
     Src.Track.hasDup a b c = true ↔ ¬ (c.shapes.map (·.dt)).Nodup := by
   rw [hasDup_eq]; exact hasDup_iff c
 
